@@ -14,6 +14,7 @@ type c14Site struct {
 	Off   int    // byte offset in the original text where the probe line is inserted
 	Class string // first-statement / after-declaration / last-statement / on-end-line / in-nested-function ...
 	Same  bool   // insert on the same line as the following token (e.g. before `end`)
+	After bool   // insert after the token ending at Off, on the same line
 }
 
 // c14Sites enumerates insertion points at statement boundaries of every block.
@@ -60,6 +61,10 @@ func c14Sites(f *SFile) []c14Site {
 				c = "after-declaration"
 			}
 			out = append(out, c14Site{Off: s.First.Off, Class: cls(c)})
+			if s.K == SLocal && s.Last != nil {
+				out = append(out, c14Site{Off: s.First.Off, Class: cls("same-line-before-declaration"), Same: true})
+				out = append(out, c14Site{Off: s.Last.End, Class: cls("same-line-after-declaration"), After: true})
+			}
 		}
 		if closer != nil && (len(b.List) == 0 || b.List[len(b.List)-1].K != SReturn) {
 			out = append(out, c14Site{Off: closer.Off, Class: cls("last-statement")})
@@ -167,12 +172,15 @@ func runC14(c *Ctx) {
 				probe := "print(" + prefix + ")"
 				var newText string
 				var cursor int
-				if st.Same {
+				cursor = st.Off + len("print(") + len(prefix)
+				if st.After {
+					newText = f.Text[:st.Off] + " " + probe + f.Text[st.Off:]
+					cursor++
+				} else if st.Same {
 					newText = f.Text[:st.Off] + probe + " " + f.Text[st.Off:]
 				} else {
 					newText = f.Text[:st.Off] + probe + "\n" + f.Text[st.Off:]
 				}
-				cursor = st.Off + len("print(") + len(prefix)
 				pr := RParse([]byte(newText))
 				if !pr.Valid() {
 					c.Count("probe_sites_skipped_invalid", 1)
